@@ -6,7 +6,7 @@ A site that is neither is a violation naming function, kind and callee."""
 from ..prov import get_an, pp, strip_generics, strip_sites, unref, bytes_of
 from ..tyutil import typenum_usize, array_len, strip_ref, generic_args
 from ..mirjson import callee_of
-from .common import all_ans, where, callee_targets, fn_err_variants, switch_edge, impl_bodies
+from .common import all_ans, where, callee_targets, fn_err_variants, switch_edge, impl_bodies, explicit_len_guard, len_value
 from .hpketerms import concat_pieces
 from . import c10, c12, rfc9180 as rfc
 
@@ -338,6 +338,10 @@ def guard_equal_len(a, facts, bi, param_term):
                 if d[0] == 'discr' and d[1][0] == 'try' and d[1][1][0] == 'call' and d[1][1][3] == gbi:
                     if a.cfg.edge_dominates(b2, switch_edge(t2, 0), bi):
                         return n
+    if param_term[0] == 'param':
+        eg = explicit_len_guard(a, facts, param_term[1])
+        if eg and a.cfg.edge_dominates(eg['eq_edge'][0], eg['eq_edge'][1], bi):
+            return len_value(facts, eg['n'])
     return None
 
 
